@@ -763,6 +763,10 @@ func ruleRangeStale(c *Ctx) []Obligation {
 				}
 				for _, r := range *a.Referrers() {
 					if st, oks := r.(*ssa.Store); oks && st.Addr == ssa.Value(a) && h.Dominates(st.Block()) && st.Block() != h && blockReaches(st.Block(), h, nil) {
+						// `p = p` is a store too, and advances nothing
+						if ld, isLd := st.Val.(*ssa.UnOp); isLd && ld.X == ssa.Value(a) {
+							continue
+						}
 						return true
 					}
 				}
